@@ -387,7 +387,7 @@ def loop_side(plan, sim):
                   "msg": f"closed loop raised {type(err).__name__}: {err}"})
     else:
         stmts, _ = nodes.split_ops(plan["ops"])
-        if not grouped and integration == "generic" and len(got) != len(stmts):
+        if not grouped and len(got) != len(stmts):
             v.append({"clause": "C11.loop_lost_items", "sig": {}, "msg": f"{len(stmts)} in, {len(got)} out"})
     if produced["frames"] >= 3:
         sim.count("frames_ge3")
